@@ -41,6 +41,7 @@ utf8 = z3.Function('utf8', T.S, T.Bytes)
 defines = z3.Function('defines', Content, T.S, T.B)
 defval = z3.Function('defval', Content, T.S, T.Val)
 exec_outcome = z3.Function('exec_outcome', Content, T.I)     # 0 ok, 1 ImportError, 2 any other exception
+is_tmp_path = z3.Function('is_tmp_path', T.S, T.B)      # names handed out by tempfile (never the name of a module or bytecode file)
 cachepath = z3.Function('cachepath', T.S, T.S)
 is_cachepath = z3.Function('is_cachepath', T.S, T.B)
 srcof = z3.Function('srcof', T.S, T.S)
@@ -114,6 +115,40 @@ def m_env_init(self, st):
                               'cross-checked natively on concrete scenarios by pyvc/env_probe.py, bounded)')
 
 
+def m_env_crash_point(self, st, what):
+    """the process may die right after this operation: the crash invariant must hold here"""
+    c = self.cur
+    if c is None or not getattr(c, 'crash_invariant', None):
+        return
+    envn = dict(self.fn_env)
+    envn.update({g: v for g, v in st.ghost.items() if isinstance(v, V)})
+    s2 = st.fork('crash-after:' + what)
+    g = self.spec_goal(s2, c.crash_invariant, envn, old=self.fn_pre)
+    self.add_obligation(s2, 'crash-point', 'crash invariant after %s' % what, g, c.crash_invariant)
+
+
+def m_env_interfere(self, st):
+    """rely: other processes running the same code may have changed the file system since the last operation"""
+    c = self.cur
+    if c is None or not getattr(c, 'rely', None):
+        return
+    self.used_assumptions.add('RELY (concurrency over-approximation): between any two environment operations of this function other processes may change '
+                              'files, bytecode and stamps in any way that keeps the rely condition true, never delete a module file, and never touch a temporary '
+                              'file created by this process; sys.modules belongs to this process')
+    old = {k: env_get(st, k) for k in ('fs_exists', 'fs_content', 'fs_stamp', 'pyc_exists', 'pyc_code', 'pyc_stamp')}
+    for k in old:
+        env_set(st, k, fresh('env_' + k, ENV_KEYS[k]))
+    p = z3.String('p!rely')
+    ne = env_get(st, 'fs_exists')
+    st.assume(z3.ForAll([p], z3.Implies(z3.And(z3.Select(old['fs_exists'], p), z3.Not(is_tmp_path(p))), z3.Select(ne, p)),
+                        patterns=[z3.Select(ne, p)]))
+    for t in st.ghost.get('env.own_tmp', VTuple([])).items:
+        for k in ('fs_exists', 'fs_content', 'fs_stamp'):
+            st.assume(z3.Select(env_get(st, k), t.z) == z3.Select(old[k], t.z))
+    envn = dict(self.fn_env)
+    st.assume(self.spec_bool(st, c.rely, envn, old=self.fn_pre))
+
+
 def _sfun(name, n):
     return z3.Function(name, *([T.S] * (n + 1)))
 
@@ -161,12 +196,14 @@ def m_bi_inspect_getfile(self, st, pos, kws, k):
 
 
 def m_bi_os_path_exists(self, st, pos, kws, k):
+    self.env_interfere(st)
     p = self.as_str(pos[0])
     ex = z3.If(is_cachepath(p), z3.Select(env_get(st, 'pyc_exists'), srcof(p)), z3.Select(env_get(st, 'fs_exists'), p))
     return k(st, VBool(ex))
 
 
 def m_bi_os_remove(self, st, pos, kws, k):
+    self.env_interfere(st)
     p = self.as_str(pos[0])
     ex = z3.If(is_cachepath(p), z3.Select(env_get(st, 'pyc_exists'), srcof(p)), z3.Select(env_get(st, 'fs_exists'), p))
 
@@ -177,8 +214,9 @@ def m_bi_os_remove(self, st, pos, kws, k):
         st.assume(z3.Implies(z3.Not(is_cachepath(p)), z3.Not(z3.Select(pe, p))))
         env_set(st, 'pyc_exists', z3.If(is_cachepath(p), z3.Store(pe, srcof(p), False), pe))
         env_set(st, 'fs_exists', z3.If(is_cachepath(p), fe, z3.Store(fe, p, False)))
+        self.env_crash_point(st, 'os.remove')
         return k(st, VNone())
-    return self.with_raises(st, [(z3.Not(ex), 'OSError')], cont)
+    return self.with_raises(st, [(z3.Not(ex), 'FileNotFoundError')], cont)
 
 
 def m_bi_os_makedirs(self, st, pos, kws, k):
@@ -227,6 +265,7 @@ def m_bi_open(self, st, pos, kws, k):
     mode = pos[1] if len(pos) > 1 else kws.get('mode')
     if not (isinstance(mode, VStr) and mode.py == 'w'):
         raise Untranslated('open() with a mode other than "w"')
+    self.env_interfere(st)
     self.used_assumptions.add('file-system operations on the cache directory succeed (writable directory, no I/O errors)')
     self.used_assumptions.add('the path of a generated module (.../__pkts__/<module>_<class>.py) is not a bytecode-cache path')
     st.assume(z3.Not(is_cachepath(p)))
@@ -236,7 +275,47 @@ def m_bi_open(self, st, pos, kws, k):
     env_set(st, 'fs_stamp', z3.Store(env_get(st, 'fs_stamp'), p, fresh('stamp', T.I)))
     o = VEnvObj('File')
     o.set(st, VStr(p))
+    self.env_crash_point(st, 'open(w)')
     return k(st, o)
+
+
+def m_bi_tempfile_NamedTemporaryFile(self, st, pos, kws, k):
+    """tempfile.NamedTemporaryFile('w', dir=..., delete=False): a NEW empty file under a name that no module,
+    bytecode file or other process uses"""
+    mode = pos[0] if pos else kws.get('mode')
+    if not (isinstance(mode, VStr) and mode.py == 'w'):
+        raise Untranslated('NamedTemporaryFile with a mode other than "w"')
+    dl = kws.get('delete')
+    if not (isinstance(dl, VBool) and z3.is_false(z3.simplify(dl.z))):
+        raise Untranslated('NamedTemporaryFile without delete=False')
+    self.env_interfere(st)
+    self.used_assumptions.add('tempfile.NamedTemporaryFile creates a new file whose name is not the name of a generated module, of a bytecode file or of a '
+                              'file used by another process')
+    t = fresh('tmpname', T.S)
+    st.assume(z3.And(is_tmp_path(t), z3.Not(is_cachepath(t)), z3.Not(z3.Select(env_get(st, 'fs_exists'), t))))
+    env_set(st, 'fs_exists', z3.Store(env_get(st, 'fs_exists'), t, True))
+    env_set(st, 'fs_content', z3.Store(env_get(st, 'fs_content'), t, cempty))
+    env_set(st, 'fs_stamp', z3.Store(env_get(st, 'fs_stamp'), t, fresh('stamp', T.I)))
+    st.ghost['env.own_tmp'] = VTuple(st.ghost.get('env.own_tmp', VTuple([])).items + [VStr(t)])
+    o = VEnvObj('File')
+    o.set(st, VStr(t))
+    self.env_crash_point(st, 'NamedTemporaryFile')
+    return k(st, o)
+
+
+def m_bi_os_replace(self, st, pos, kws, k):
+    """os.replace(src, dst): atomic rename - dst has the whole content (and the stamp) of src, src is gone"""
+    self.env_interfere(st)
+    a, b = self.as_str(pos[0]), self.as_str(pos[1])
+    fe, fc, fs = env_get(st, 'fs_exists'), env_get(st, 'fs_content'), env_get(st, 'fs_stamp')
+
+    def cont(st):
+        env_set(st, 'fs_content', z3.Store(fc, b, z3.Select(fc, a)))
+        env_set(st, 'fs_stamp', z3.Store(fs, b, z3.Select(fs, a)))
+        env_set(st, 'fs_exists', z3.Store(z3.Store(fe, b, True), a, a == b))
+        self.env_crash_point(st, 'os.replace')
+        return k(st, VNone())
+    return self.with_raises(st, [(z3.Not(z3.Select(fe, a)), 'FileNotFoundError')], cont)
 
 
 def m_env_method(self, st, obj, attr, pos, kws, k):
@@ -258,7 +337,13 @@ def m_env_method(self, st, obj, attr, pos, kws, k):
             s = self.as_str(pos[0])
             c = env_get(st, 'fs_content')
             env_set(st, 'fs_content', z3.Store(c, p, capp(z3.Select(c, p), s)))
+            # (a crash in the middle of a write leaves an arbitrary prefix of the chunk: covered by the crash point
+            #  of the operation that created / truncated the file, after which the content is not honest any more
+            #  until the last chunk is written - unless the file is a temporary one)
+            self.env_crash_point(st, 'write')
             return k(st, VInt(z3.Length(s)))
+        if attr == 'name':
+            return k(st, VStr(p))
         if attr in ('close', 'flush'):
             return k(st, VNone())
     if obj.cls == 'SourceFileLoader' and attr == 'load_module':
@@ -268,11 +353,12 @@ def m_env_method(self, st, obj, attr, pos, kws, k):
 
 
 def m_env_load_module(self, st, name, path, k):
+    self.env_interfere(st)
     fe, fc, fs = env_get(st, 'fs_exists'), env_get(st, 'fs_content'), env_get(st, 'fs_stamp')
     pe, pc, ps = env_get(st, 'pyc_exists'), env_get(st, 'pyc_code'), env_get(st, 'pyc_stamp')
     ml, mr = env_get(st, 'mod_loaded'), env_get(st, 'mod_ref')
     dwb = st.ghost['env.dont_write_bytecode'].z
-    st.assume(z3.Not(is_cachepath(path)))
+    st.assume(z3.And(z3.Not(is_cachepath(path)), z3.Not(is_tmp_path(path))))
     use_pyc = z3.And(z3.Select(pe, path), z3.Select(ps, path) == z3.Select(fs, path))
     eff = z3.If(use_pyc, z3.Select(pc, path), z3.Select(fc, path))
 
@@ -283,6 +369,7 @@ def m_env_load_module(self, st, name, path, k):
         env_set(st, 'pyc_exists', z3.If(do_write, z3.Store(pe, path, True), pe))
         env_set(st, 'pyc_code', z3.If(do_write, z3.Store(pc, path, z3.Select(fc, path)), pc))
         env_set(st, 'pyc_stamp', z3.If(do_write, z3.Store(ps, path, z3.Select(fs, path)), ps))
+        self.env_crash_point(st, 'load_module(bytecode written)')
         out = exec_outcome(eff)
         # --- the text raises: a failed first import leaves no module behind; a failed re-execution keeps the old one
         for code, cls in ((1, 'ImportError'), (2, 'OtherException*')):
@@ -311,7 +398,7 @@ def m_env_load_module(self, st, name, path, k):
         env_set(st, 'mod_ref', z3.Store(mr, name, m))
         st.ghost['g_last_loaded'] = VContent(eff)
         return k(st, VRef(m, 'Module'))
-    return self.with_raises(st, [(z3.Not(z3.Select(fe, path)), 'OSError')], exists)
+    return self.with_raises(st, [(z3.Not(z3.Select(fe, path)), 'FileNotFoundError')], exists)
 
 
 def install(Engine):
